@@ -387,6 +387,20 @@ func grpSrc(fam string, n int) (string, []string) {
 			return it + "local n = 0\n" + head + body + "end\n" + "for " + names + " in it, nil, 0 do " + map[bool]string{true: "break", false: "n = n + 1"}[shape == 1] + " end\nreturn n\n", []string{want}
 		}
 		return it + "local n = 0\n" + head + body + cnt + "end\nreturn n\n", []string{map[bool]string{true: "1", false: "3"}[shape == 2]}
+	case "grp_moven_backlabel": // a MOVE run spanning the target of a backward goto
+		return "local x, y, n = 1, 2, 0\nlocal a, b = x, y\n::top::\nlocal c, d = y, x\nn = n + c + d\nif n < 9 then goto top end\nreturn a, b, c, d, n\n",
+			[]string{"1", "2", "2", "1", "9"}
+	case "grp_moven_repeat": // ... the head of a repeat loop
+		return "local x, y, n = 1, 2, 0\nlocal a, b = x, y\nrepeat\nlocal c, d = y, x\nn = n + c\nuntil n > 5\nreturn a, b, n\n", []string{"1", "2", "6"}
+	case "grp_moven_while": // ... the head of a `while true` loop
+		return "local x, y, n = 1, 2, 0\nlocal a, b = x, y\nwhile true do\nlocal c, d = y, x\nn = n + d\nif n > 3 then break end\nend\nreturn a, b, n\n", []string{"1", "2", "4"}
+	case "grp_moven_nested": // nested loop heads and a backward label, runs of three
+		return "local x, y, z, n = 1, 2, 3, 0\nlocal a, b, c = x, y, z\nrepeat\nlocal d, e, f = z, y, x\n::again::\nlocal g, h = d, e\nn = n + g\nif n % 2 == 1 then goto again end\nuntil n > 10\nreturn a, b, c, n\n",
+			[]string{"1", "2", "3", "12"}
+	case "grp_moven_fn": // the same inside a function with parameters as the sources
+		return "local function f(p, q)\nlocal n = 0\nlocal a, b = p, q\nrepeat\nlocal c, d = q, p\nn = n + c\nuntil n > 5\nreturn a + b + n\nend\nreturn f(1, 2)\n", []string{"9"}
+	case "protos_big": // OP_CLOSURE's Bx is 18 bits: the last of n function expressions must be the one called
+		return rep(n, func(i int) string { return fmt.Sprintf("f = function() return %d end", i) }, "\n") + "\nreturn f()\n", []string{N}
 	case "grp_moven_long":
 		return rep(n, func(i int) string { return fmt.Sprintf("local a%d = %d", i, i) }, "\n") + "\nlocal function f(...) return select('#', ...), (select(" + N + ", ...)) end\nreturn f(" +
 			rep(n, func(i int) string { return fmt.Sprintf("a%d", i) }, ", ") + ")\n", []string{N, N}
@@ -406,7 +420,8 @@ func adversarial(c *ctx, tier string) {
 		"assign_multi": {60, 100, 199}, "moves": {100, 190}, "protos": {300}, "elseif": {100, 1000}, "setlist_then_moves": {100},
 	}
 	for _, f := range []string{"grp_closure_moves", "grp_closure_loadnil", "grp_closure_label", "grp_closure_after_moves", "grp_closure_upvals",
-		"grp_closure_two", "grp_moven_target", "grp_moven_loadnil", "grp_moven_loop", "grp_moven_swap"} {
+		"grp_closure_two", "grp_moven_target", "grp_moven_loadnil", "grp_moven_loop", "grp_moven_swap",
+		"grp_moven_backlabel", "grp_moven_repeat", "grp_moven_while", "grp_moven_nested", "grp_moven_fn"} {
 		ladder[f] = []int{1}
 	}
 	ladder["grp_moven_long"] = []int{60, 90}
@@ -439,6 +454,7 @@ func adversarial(c *ctx, tier string) {
 		for k, v := range nested {
 			ladder[k] = append(ladder[k], v...)
 		}
+		ladder["protos_big"] = []int{262144, 262145}
 		loopN = []int{131066, 131067, 131068, 131069, 131070, 131071, 131072, 131073, 131074, 140000}
 		big["tablepos"] = append(big["tablepos"], 25549, 25552, 25600, 25650, 51101)
 		ladder["andor"] = nil
